@@ -100,7 +100,8 @@ fn gen_entries(rng: &mut Rng, n_peers: usize, n_vars: usize, fault: bool, max: u
             6..=8 => 5 + rng.below(4) as u8,
             _ => {
                 if fault {
-                    9 + 10 * rng.below(3) as u8
+                    // 9 / 19 / 29: an hour or a few in the future; 99: half an hour before the end of time
+                    if rng.chance(1, 4) { 99 } else { 9 + 10 * rng.below(3) as u8 }
                 } else {
                     rng.below(9) as u8
                 }
